@@ -869,7 +869,12 @@ func (s *recordingSpan) runtimeTrace(ctx context.Context) context.Context {
 		// Avoid additional overhead if runtime/trace is not enabled.
 		return ctx
 	}
-	nctx, task := rt.NewTask(ctx, s.name)
+	// The span has already been handed to the span processors (OnStart), so
+	// it may be in use by other goroutines: read the name under the lock.
+	s.mu.Lock()
+	name := s.name
+	s.mu.Unlock()
+	nctx, task := rt.NewTask(ctx, name)
 
 	s.mu.Lock()
 	s.executionTracerTaskEnd = task.End
